@@ -100,7 +100,7 @@ func lastOp(path []string) string {
 }
 
 func checkC13(run *mon.Run, rng *mon.Rand, thorough bool) {
-	run.Rule = "memoised bounded-exhaustive DFS on copy-on-write branches over {add(operator i, key j) i,j in 1..3, remove(i), end block, set max in {1,2,3}, set retention in {0,1,3}} from three genesis sets (1, 2, 3 validators), every leaf closed by a block end; plus seeded random longer histories with up to 8 validators. The real CometBFT ValidatorSet accumulates every returned batch and is compared with state after every block. Distinct non-trivial = (removal, preceding operation) contexts in the DFS + random histories containing add-then-remove in one block, remove-then-re-add, and a key reused under another operator"
+	run.Rule = "memoised bounded-exhaustive DFS on copy-on-write branches over {add(operator i, key j) i,j in 1..3, remove(i), end block, set max in {1,2,3}, set retention in {0,1,3}} from three genesis sets (1, 2, 3 validators), every leaf closed by a block end; plus seeded random longer histories with up to 8 validators. The real CometBFT ValidatorSet accumulates every returned batch and is compared with state after every block. Distinct non-trivial = (removal, preceding operation) contexts in the DFS + random histories containing add-then-remove in one block, remove-then-re-add, and a key reused under another operator Plus: every genesis validator list over operators x keys x powers {-1,0,1,3} (distinct operators; all lists of <=2, sampled 3-4) accepted by ValidateGenesis must start consistent."
 	run.Assumptions = []string{"engine oracle = cometbft v0.38.12 types.ValidatorSet (PB2TM + UpdateWithChangeSet)", "an engine refusal because the authority removed every validator ends the history without alarm (not among the rejection kinds the property names)", "history pruning is asserted only along histories whose retention was never 0"}
 	for _, c := range []string{"C13.engine_equals_state", "C13.engine_equals_last_powers", "C13.index_bijection", "C13.bonded_within_max", "C13.block_processing_never_aborts", "C13.engine_accepts_batch",
 		"C13.removed_validator_is_gone", "C13.history_within_retention_present", "C13.history_lists_bonded_set", "C13.history_pruned_to_retention"} {
